@@ -292,7 +292,10 @@ def check_programs(chk):
             ("unversioned-package", unversioned_api(), None, "transport=grpc"),
             ("four-files+dep", two_file_api(), ["google/example/tf/v1/a.proto", "google/example/tf/v1/b_c.proto",
                                                 "google/example/tf/v1/b.c.proto", "google/example/tf/v1/svc_only.proto"],
-             "transport=rest,unknown-opt=1,python-gapic-bogus=2")):
+             "transport=rest,unknown-opt=1,python-gapic-bogus=2"),
+            # the dependency's package is deeper than the API's root package: nothing of it may surface, not even as a
+            # sub-package directory
+            ("deep-dependency", deep_dep_api(), ["acme/library/v1/lib.proto"], "transport=grpc")):
         # expectations are computed from the descriptors BEFORE generation (API.build renames fd.name in place)
         import keyword
         all_names = [m.DESCRIPTOR.name for m in gen.DEP_MODS] + [fb.f.name for fb in files]
@@ -334,6 +337,10 @@ def check_programs(chk):
                            if n.startswith(pkgroot + "/services/") and n.count("/") > pkgroot.count("/") + 2})
         if svc_dirs != exp_svcs:
             problems.append(f"service packages {svc_dirs} != {exp_svcs}")
+        extra = sorted({n[len(pkgroot) + 1:].split("/")[0] for n in names
+                        if n.startswith(pkgroot + "/") and "/" in n[len(pkgroot) + 1:]} - {"types", "services"})
+        if extra:
+            problems.append(f"unexpected directories under {pkgroot}: {extra} (files emitted for something that is not a target)")
         py_dirs = {posixpath.dirname(n) for n in names if n.endswith(".py") and n.startswith(pkgroot)}
         for d in py_dirs:
             if d + "/__init__.py" not in names:
@@ -358,6 +365,16 @@ def unversioned_api():
     s = fb.service("Uv")
     fb.method(s, "Get", "Req", "Req", http=("get", "/v1/{name=x/*}"))
     return [fb]
+
+
+def deep_dep_api():
+    dep = gen.FileBuilder("acme/common/types/v1/t.proto", "acme.common.types.v1")
+    dep.message("Money", [("units", "int64")])
+    lib = gen.FileBuilder("acme/library/v1/lib.proto", "acme.library.v1", deps=[dep.f.name])
+    lib.message("Book", [("name", "string"), ("price", "msg:.acme.common.types.v1.Money")])
+    s = lib.service("Library")
+    lib.method(s, "GetBook", "Book", "Book", http=("get", "/v1/{name=books/*}"))
+    return [dep, lib]
 
 
 def two_file_api():
